@@ -148,7 +148,18 @@ SCHED_ASSUME = ["simulators always answer; replies API-compliant except where a 
                 "configuration hypotheses WFCfg (closure of the ancestor table etc.) are checked by the driver on every generated scenario (wfB, proved sound); scenarios where two paths between the same simulators leave and re-enter a group are outside them (finding D7)",
                 "theorems are about the transition system whose actions are the atomic blocks between awaits; asyncio only chooses which enabled action fires next"]
 
-PROPERTIES["C01"] = {"run": _sched(_mon("C01")), "assumptions": SCHED_ASSUME}
+def _c01_async(o, driver, rng):
+    """Scenarios with async_requests connections (the controller must wait for its agents whatever lazy_stepping says)."""
+    import sched_corr as scorr
+    n_sc, n_sched = (80, 3) if o.tier == "quick" else (2000, 5)
+    res = scorr.run_sched_suite(driver, rng, n_sc, n_sched, name="async", monitor=_mon("C01"), async_req=True)
+    o.suites.append(res)
+    o.violations.extend(res["violations"])
+    o.monitor_stats["async_traces_monitored"] = res["traces"]
+    o.monitor_stats["impl_monitor_violations"] = o.monitor_stats.get("impl_monitor_violations", 0) + len(res["violations"])
+
+
+PROPERTIES["C01"] = {"run": _sched(_mon("C01"), extra=_c01_async), "assumptions": SCHED_ASSUME}
 PROPERTIES["C02"] = {"run": _sched(_mon("C02"), extra=_fanin("C02")), "assumptions": SCHED_ASSUME + ["completeness is proved for runs that end (complete_at_end); that runs end is proved only as deadlock freedom for flat configurations (C05), otherwise monitor + correspondence"]}
 PROPERTIES["C05"] = {"run": _sched(_mon("C05"), extra=_both(_fanin("C05"), _replay_d7("C05"))), "assumptions": SCHED_ASSUME + ["deadlock freedom is a theorem for flat (group-less) configurations (hypotheses evaluated per scenario by the driver: wfx); for grouped configurations and for termination: monitor + correspondence only"]}
 def _c07_extra(o, driver, rng):
